@@ -3,7 +3,7 @@ EXTENDS Reconf, Json, IOUtils
 VARIABLE l
 Trace == ndJsonDeserialize(IOEnv.VERIF_TRACE)
 \* one violated clause names all four properties it is an instance of
-Verdict(t) == [case |-> t.case, fails |-> IF Cur_OK(t.input.h, t.obs) THEN {} ELSE {"C01", "C02", "C07", "C10", "C17"},
+Verdict(t) == [case |-> t.case, fails |-> IF Cur_OK(t.input.h, t.obs) THEN {} ELSE {"C01", "C02", "C07", "C08", "C10", "C17"},
                drift |-> t.obs.steps # ModelOut(t.input.h)]
 Init == l = 1
 Next == /\ l <= Len(Trace)
